@@ -55,6 +55,53 @@ CLAIMS = {
             "(encoding, stack, addition, format, path vs file object), single consumption of iterables, and the per-block "
             "result protocol table, for all argument combinations.",
             "5 C20"),
+    "C08": ("bounded-history abstract exploration of Library (every distinct abstract state expanded once with every operation) "
+            "against a reference model, with a key-discipline rule justifying the two-key abstraction; ownership rule",
+            "Decides, for every operation (add single/list with and without fail flag, remove single/list incl. absent, replace in "
+            "both modes incl. absent) from every abstract library state reachable within the bound, that all eight public "
+            "views equal the reference model, the invariants hold, and raising calls leave the state unchanged (two known "
+            "findings recorded).",
+            "5 C08"),
+    "C09": ("library exploration against the reference model (first wins, wrappers complete) + splitter bisimulation for "
+            "repeated field keys + class-hierarchy rule",
+            "Decides that adding never drops or merges, that duplicate wrappers expose key / first block / complete duplicate / "
+            "line / raw, that every field occurrence is kept and duplicate-field entries are flagged exactly when a key repeats.",
+            "5 C09"),
+    "C10": ("finite decision tables extracted by abstract evaluation of _strip_enclosing / _enclose / the two middlewares over "
+            "class strings and option combinations, with an observer-discipline rule",
+            "Decides the strip table over all class strings up to length 4 (5 thorough), the enclose table over all option / "
+            "metadata / value-kind combinations incl. Python ints, the remove->add(reuse) round trip and the numeric-field "
+            "call sites. Not decided: the matching-pair clause.",
+            "5 C10"),
+    "C11": ("decision table by abstract evaluation of ResolveStringReferences.transform over value kinds x definition layouts; "
+            "default stack order",
+            "Decides which value kinds are substituted (exact, case-sensitive, bare only, first definition wins), the "
+            "bookkeeping of resolved keys and that @string blocks stay unchanged.",
+            "5 C11"),
+    "C15": ("constant folding of the month tables + finite-domain evaluation of the three resolvers over all month spellings "
+            "and non-month kinds + composition table",
+            "Decides the value table for ints / digit strings -1..14, all case variants of abbreviations, case variants of "
+            "full names, enclosed and other text, None and non-ASCII digits, for each middleware and each ordered pair.",
+            "5 C15"),
+    "C16": ("abstract evaluation of SortBlocksByTypeAndKey.transform over block sequences x type orders x comment modes "
+            "against a reference stable sort; aliasing check",
+            "Decides permutation, order, stability, comment attachment, equality of the copies and non-aliasing for the "
+            "explored sequences (comment runs, equal keys across types, failed/duplicate blocks, trailing comments).",
+            "5 C16"),
+    "C17": ("abstract evaluation of the two field sorters and NormalizeFieldKeys over all key lists from a 5-key pool with "
+            "case collisions against reference functions; idempotence; frame",
+            "Decides order, conservation of key/value pairs, last-wins merging, idempotence and that nothing else changes.",
+            "5 C17"),
+    "C18": ("abstract interpretation of the two LaTeX middlewares with the third-party converter modelled as an opaque "
+            "function that returns a string or raises; option data-flow",
+            "Decides frame (only string-typed values, name-part lists, @string values change and stay strings), error "
+            "containment and option handling. Not decided: the round trip (pylatexenc).",
+            "5 C18"),
+    "C19": ("bounded-history abstract exploration of Entry's mapping API against an insertion-ordered dict model; "
+            "single-attribute perturbation table for structural equality",
+            "Decides results and field order for every operation from every mapping state within the bound, agreement of "
+            "fields / fields_dict / items(), reserved names, and structural equality incl. copies.",
+            "5 C19"),
 }
 
 NOT_APPLICABLE = {
